@@ -293,26 +293,24 @@ def evaluator_no_alias(r, pm, key_prefix="_eval_const"):
 
 
 def list_size_guard_ok(pm) -> bool:
-    """re-assignment of a declared list compares the *previously recorded* length with the length of the new value and
-    raises on a mismatch; both operands are read before the record is updated"""
-    ha = pm.func("_handle_assignment_ast")
-    loc = Locals(ha)
-    found = False
-    for n in walk_local(ha):
-        if isinstance(n, ast.If) and any(isinstance(x, ast.Raise) for x in n.body):
-            t = norm(n.test)
-            if "!=" in t and "expected" in t and "new_length" in t:
-                ex = loc.defs.get("expected", [])
-                nl = loc.defs.get("new_length", [])
-                if any("'length'" in norm(d) for d in ex if isinstance(d, ast.expr)) and any("len(value_obj)" in norm(d) or "list_length_from_ast" in norm(d) for d in nl if isinstance(d, ast.expr)):
-                    found = any(isinstance(a, ast.If) and "is_declared" in norm(a.test) and "_is_list_type" in norm(a.test) for a in pm.ancestors(n))
-                    # the record must not have been updated yet when the old length is read: no record_list_state(...) call and
-                    # no store into list_info precedes the comparison inside the function
-                    for c in walk_local(ha):
-                        upd = (isinstance(c, ast.Call) and call_name(c) == "record_list_state") or (isinstance(c, ast.Assign) and "list_info" in norm(c.targets[0]))
-                        if upd and pm.enclosing_func(c) is ha and (c.lineno, c.col_offset) < (n.lineno, n.col_offset):
-                            found = False
-    return found
+    """re-assignment of a declared list with a statically different length is refused, also after appends moved the tracked
+    length and in every scope; the same length is accepted - decided on scripts through parse() (partial evaluation)"""
+    from .. import pe as pe_
+    tail = "while True:\n    a0 = 0\n"
+    cases = [("xs = [1, 2, 3]\nxs = [4, 5]\n" + tail, False), ("xs = [1, 2, 3]\nxs = [4, 5, 6]\n" + tail, True), ("xs = [1, 2]\nxs.append(3)\nxs = [7, 8, 9]\n" + tail, True),
+             ("xs = [1, 2]\nxs.append(3)\nxs = [7, 8]\n" + tail, False), ("xs = [1, 2]\nxs = [1, 2, 3, 4]\n" + tail, False), ("xs = [1.5, 2.5]\nxs = [3.5]\n" + tail, False),
+             ("def f():\n    ys = [1, 2]\n    ys = [3]\n    return 0\nz = f()\n" + tail, False), ("while True:\n    xs = [1, 2]\n    xs = [3]\n", False),
+             ("xs = [1, 2, 3]\nxs.remove(2)\nxs = [5, 6]\n" + tail, True), ("xs = [1, 2, 3]\nxs.remove(2)\nxs = [5, 6, 7]\n" + tail, False)]
+    for src, accept in cases:
+        try:
+            _it, out = pe_.parse_source(src)
+        except dl.Unsupported as e:
+            raise AnalysisError(f"parse() left the evaluable subset on a list script: {e}")
+        if accept and out.kind != "return":
+            return False
+        if not accept and not (out.kind == "raise" and out.value == "ValueError"):
+            return False
+    return True
 
 
 def run(cx):
